@@ -69,8 +69,9 @@ def gen_cases(tier, seed):
             for pre in (0, 1, 2):
                 keys.append(dict(part="reject", fab=fab, regime=rg, pre=pre, how="regime"))
     for ph, fb in [(0, 5), (1, 0), (1, 3), (2, 0), (0, 6)]:
-        for pre in (0, 2):
-            keys.append(dict(part="reject", phase=ph, fabric=fb, regime=4, pre=pre, how="pair"))
+        for fl in ("gen", "zero", "rigid", "ps_xy"):
+            for tex in ("random", "aligned"):
+                keys.append(dict(part="reject", phase=ph, fabric=fb, regime=4, pre=0, how="pair", flow=fl, tex=tex))
     for fab in alph.FABRICS:
         for pre in (0, 2):
             keys.append(dict(part="reject", fab=fab, regime=4, pre=pre, how="get_regime"))
@@ -135,9 +136,12 @@ def run_pair(key):
     ph, fb = key["phase"], key["fabric"]
     valid = (ph, fb) in set(alph.FABRICS.values())
     obs = []
-    for rg in (4, 6):
-        L, D = alph.normalised(alph.VG["gen0"])
-        A = np.array([alph.GEN["g0"], alph.GEN["g1"]])
+    # gradient x texture letters: generic, and every shortcut that skips the slip
+    # computation (zero gradient, rigid rotation, cube-aligned grains with no resolved shear)
+    vgs = {"gen0": alph.VG["gen0"], "ss_xz": alph.VG["ss_xz"], "ax_z-": alph.VG["ax_z-"], "rigid_xz": alph.VG["rigid_xz"], "zero": np.zeros((3, 3))}
+    texs = {"gen": np.array([alph.GEN["g0"], alph.GEN["g1"]]), "identity": np.array([np.eye(3), np.eye(3)]), "cube": np.array(list(alph.CUBE.values())[:2])}
+    for rg, (vn, Lraw), (tn, A) in itertools.product((4, 6), vgs.items(), texs.items()):
+        L, D = alph.normalised(Lraw)
         res["n"] += 1
         res["trans"] += 1
         try:
@@ -149,10 +153,10 @@ def run_pair(key):
         res["outcomes"].append(f"{valid}:{out}")
         res["clauses"]["phase_fabric_validation"] = res["clauses"].get("phase_fabric_validation", 0) + 1
         if valid and out != "returned":
-            V(res, key, "phase_fabric_validation", {"outcome": out}, regime=rg, form="valid_pair_rejected")
+            V(res, key, "phase_fabric_validation", {"outcome": out}, regime=rg, vg=vn, tex=tn, form="valid_pair_rejected")
         if not valid and out == "returned":
-            V(res, key, "phase_fabric_validation", {"outcome": out}, regime=rg, form="invalid_pair_accepted")
-    res["states"] = 2
+            V(res, key, "phase_fabric_validation", {"outcome": out}, regime=rg, vg=vn, tex=tn, form="invalid_pair_accepted")
+    res["states"] = 2 * len(vgs) * len(texs)
     res["nontrivial"].append(digest(key))
     res["obs"] = digest(*obs)
     res["sample"] = {"case": key}
@@ -240,7 +244,7 @@ def run_reject(key):
     if key["how"] == "pair":
         ph, fb = key["phase"], key["fabric"]
         n = 4
-        m = pd.Mineral(phase=ph, fabric=fb, regime=4, n_grains=n, fractions_init=alph.volumes("uniform", n), orientations_init=alph.texture("random", n))
+        m = pd.Mineral(phase=ph, fabric=fb, regime=4, n_grains=n, fractions_init=alph.volumes("uniform", n), orientations_init=alph.texture(key.get("tex", "random"), n))
         prm = H.params_for(0, "default", assemblage=[ph], fractions=(1.0,))
         good_regime = 4
     else:
@@ -268,8 +272,10 @@ def run_reject(key):
     res["trans"] = key["pre"] + 1
     res["states"] = key["pre"] + 1
     res["clauses"]["rejected_update_raises"] = 1
+    fl = H.flow(key.get("flow", "gen"))
     try:
-        m.update_orientations(prm, F, H.flow("gen").L, (t, t + 0.3, H.flow("gen").x), get_regime=get_regime)
+        with H.time_limit():
+            m.update_orientations(prm, F, fl.L, (t, t + 0.3, fl.x), get_regime=get_regime)
         out = "returned"
     except Exception as e:
         out = "raised:" + type(e).__name__
